@@ -11,6 +11,7 @@ from typing import (
     Callable,
     Generic,
     Hashable,
+    List,
     Mapping,
     Optional,
     Sequence,
@@ -50,13 +51,13 @@ class SwitchError(EvaluationError):
 
 class _DependsOn(Generic[A, B], Evaluatable[B]):
     evaluatable: Evaluatable[B]
-    depends: Evaluatable[A]
+    depends: Tuple[Evaluatable[A], ...]
 
     def __init__(
-        self, evaluatable: MaybeEvaluatable[B], depends: MaybeEvaluatable[A]
+        self, evaluatable: MaybeEvaluatable[B], *depends: MaybeEvaluatable[A]
     ) -> None:
         self.evaluatable = Evaluatable.ensure(evaluatable)
-        self.depends = Evaluatable.ensure(depends)
+        self.depends = tuple(Evaluatable.ensure(d) for d in depends)
 
     def evaluate(self, options: Options) -> B:
         return self.evaluatable.evaluate(options)
@@ -65,10 +66,14 @@ class _DependsOn(Generic[A, B], Evaluatable[B]):
         self.evaluatable.validate(options)
 
     def keys(self, options: Options) -> Set[str]:
-        return self.evaluatable.keys(options) | self.depends.keys(options)
+        return self.evaluatable.keys(options).union(
+            *(d.keys(options) for d in self.depends)
+        )
 
     def explain(self, options: Optional[Options] = None) -> Set[str]:
-        return self.evaluatable.explain(options) | self.depends.explain(options)
+        return self.evaluatable.explain(options).union(
+            *(d.explain(options) for d in self.depends)
+        )
 
     def __repr__(self) -> str:
         return f"_DependsOn({self.evaluatable!r}, {self.depends!r})"  # pragma: no cover
@@ -220,12 +225,14 @@ class CaseWhen(Generic[A, B], Evaluatable[B]):
         self.default = default
 
     def _evaluate(self, value: A, options: Options) -> Evaluatable[B]:
+        checked: List[Evaluatable[Callable[[A], bool]]] = []
         for condition, result in self.cases:
+            checked.append(condition)
             if condition.evaluate(options)(value):
-                return result
+                return _DependsOn(result, *checked)
 
         if self.default is not MISSING:
-            return self.default
+            return _DependsOn(self.default, *checked)
 
         raise CaseWhenError(self.dispatch, value)
 
